@@ -80,7 +80,12 @@ def compare(out, t, spec, probes, tag, use_model=True):
     try:
         with warnings.catch_warnings():
             warnings.simplefilter("ignore")
-            parsed = ns.c.ConditionLike.from_spec(copy.deepcopy(spec))
+            # in half of the cases the spec object parsed is one the library has parsed before, when it held other
+            # content (the caller edited its structure in place in between)
+            obj = SP.recycled(spec, ns.c.ConditionLike.from_spec) if len(repr(spec)) % 2 else None
+            if obj is not None:
+                out.label("recycled-spec-object")
+            parsed = ns.c.ConditionLike.from_spec(obj if obj is not None else copy.deepcopy(spec))
     except Exception as e:
         out.exc("parse", e)
         return
